@@ -31,6 +31,8 @@ def impl_check(bounds, prec) -> str:
         return "ok"
     except ss.SearchSpaceError as e:
         return impl_err(e)
+    except Exception as e:  # noqa: BLE001  (a malformed specification must be rejected with the documented error class: anything else is an outcome to judge)
+        return f"raised {type(e).__name__}: {str(e)[:60]}"
 
 
 def impl_err(e) -> str:
